@@ -49,6 +49,13 @@ func c15old(before, after map[string]float64, what string) {
 }
 
 func addComments(t *tree.Tree) {
+	// p-values on the supported branches too (they are part of the text)
+	for i, e := range t.Edges() {
+		if !e.Right().Tip() && i%2 == 0 {
+			e.SetSupport(0.5)
+			e.SetPValue(0.25)
+		}
+	}
 	for i, nd := range t.Nodes() {
 		if i%2 == 0 {
 			nd.AddComment(fmt.Sprintf("n%d", i))
@@ -79,7 +86,14 @@ func c15start(n int) *tree.Tree {
 		s.replaceNeighbor(v, u, m)
 		s.adj[m] = append(s.adj[m], u, v)
 	}
-	t := buildTree(s, rootShape(s, rooted))
+	root := rootShape(s, rooted)
+	if sxParam("rootsingle", 0) == 1 && sxChoose("rootsingle", 2) == 1 {
+		// a root with a single child above the tree (a placement of a single-child node)
+		top := s.addNode(-1)
+		s.link(top, root)
+		root = top
+	}
+	t := buildTree(s, root)
 	if sxParam("lenmode", lenAll) == lenAll {
 		decorate(t, lenAll, sxParam("supmode", supNone))
 	} else {
@@ -189,7 +203,13 @@ func H_C15_singles() {
 	sxAssert(!hasSingleNode(t), "no single-child node left")
 	after := distByName(t)
 	c15old(before, after, "RemoveSingleNodes")
-	sxAssert(len(t.Tips()) == n, "no tip added or removed")
+	named := 0
+	for _, tp := range t.Tips() {
+		if tp.Name() != "" {
+			named++ // (a root with a single child is not a tip)
+		}
+	}
+	sxAssert(named == n, "no tip added or removed")
 	if had {
 		sxReach("had-single")
 	}
